@@ -74,6 +74,12 @@ structure Sem where
   multiIndex : List V → W → V
   print : List V → W → Option W
   setExit : V → W → W
+  /-- the value of an unset variable / of a function that ends without `return` -/
+  nullV : V
+  /-- a user-function call as a primitive of the semantics: function index, the scalar arguments (already padded with nulls
+  to the number of scalar parameters), the array arguments as (scope, index) references. The framed semantics of
+  `GoawkModel.C01Frames` defines it by running the function's body. -/
+  call : Nat → List V → List (AScope × Nat) → W → Option (V × W)
 
 inductive Expr
   | num (c : NumC)
@@ -94,7 +100,10 @@ inductive Expr
   | augAssign (lv : Expr) (op : ArithOp) (r : Expr)
   | incr (lv : Expr) (dec pre : Bool)
   | group (e : Expr)
-  deriving Repr, Inhabited
+  /-- user call `f(args…)`: `nsc` = number of scalar parameters of `f`; scalar arguments in order, array arguments as
+  (scope, index) of the caller's arrays in order -/
+  | call (f nsc : Nat) (args : List Expr) (arrs : List (AScope × Nat))
+  deriving Inhabited
 
 inductive Stmt
   | skip
@@ -111,7 +120,8 @@ inductive Stmt
   | next
   | exit (e : Option Expr)
   | block (b : Stmt)
-  deriving Repr, Inhabited
+  | ret (e : Option Expr)
+  deriving Inhabited
 
 /-! ## Reference semantics: direct evaluation of the syntax tree -/
 section Eval
@@ -119,6 +129,7 @@ variable (S : Sem)
 
 def incrArith (dec : Bool) : ArithOp := if dec then .sub else .add
 
+mutual
 /-- Evaluate an expression. Operands left to right; for assignments the right side first, then the lvalue's subscript,
 then the read (for `op=`, `++`, `--`) and the store. `none` = runtime error (or an ill-formed lvalue). -/
 def eval : Expr → S.W → Option (S.V × S.W)
@@ -225,21 +236,25 @@ def eval : Expr → S.W → Option (S.V × S.W)
     some (if pre then v else old, S.setArr sc a iv v w2)
   | .incr _ _ _, _ => none
   | .group e, w => eval e w
+  | .call f nsc args arrs, w => do
+    let (vs, w1) ← evalList args w
+    if vs.length ≤ nsc then S.call f (vs ++ List.replicate (nsc - vs.length) S.nullV) arrs w1 else none
 
 def evalList : List Expr → S.W → Option (List S.V × S.W)
   | [], w => some ([], w)
   | e :: es, w => do
-    let (v, w1) ← eval S e w
+    let (v, w1) ← eval e w
     let (vs, w2) ← evalList es w1
     some (v :: vs, w2)
+end
 
 /-- Outcome of executing a statement. -/
-inductive Out (W : Type)
-  | normal (w : W) | brk (w : W) | cont (w : W) | next (w : W) | exit (w : W)
+inductive Out (V W : Type)
+  | normal (w : W) | brk (w : W) | cont (w : W) | next (w : W) | exit (w : W) | ret (v : V) (w : W)
 
 /-- One pass of a loop whose condition was just found true: run the body, then `post`, then the rest of the loop
 (`ex` is the evaluator with the remaining fuel). `break` ends the loop normally, `continue` goes on with `post`. -/
-def loopBody (ex : Stmt → S.W → Option (Out S.W)) (c : Option Expr) (b post : Stmt) (w : S.W) : Option (Out S.W) :=
+def loopBody (ex : Stmt → S.W → Option (Out S.V S.W)) (c : Option Expr) (b post : Stmt) (w : S.W) : Option (Out S.V S.W) :=
   match ex b w with
   | none => none
   | some (.normal w1) | some (.cont w1) =>
@@ -251,7 +266,7 @@ def loopBody (ex : Stmt → S.W → Option (Out S.W)) (c : Option Expr) (b post 
   | some o => some o
 
 /-- Execute a statement with a fuel bound on nesting depth + loop iterations (`none` = runtime error or fuel exhausted). -/
-def exec : Nat → Stmt → S.W → Option (Out S.W)
+def exec : Nat → Stmt → S.W → Option (Out S.V S.W)
   | 0, _, _ => none
   | n+1, s, w =>
     match s with
@@ -310,6 +325,11 @@ def exec : Nat → Stmt → S.W → Option (Out S.W)
       | none => none
       | some (v, w1) => some (.exit (S.setExit v w1))
     | .block b => exec n b w
+    | .ret none => some (.ret S.nullV w)
+    | .ret (some e) =>
+      match eval S e w with
+      | none => none
+      | some (v, w1) => some (.ret v w1)
 
 end Eval
 
@@ -328,6 +348,7 @@ inductive Instr
   | jump (off : Int) | jumpFalse (off : Int) | jumpTrue (off : Int) | jumpCmp (op : CmpOp) (off : Int)
   | next | exit | exitStatus
   | print (n : Nat)
+  | nulls (k : Nat) | callUser (f nsc : Nat) (arrs : List (AScope × Nat)) | ret | retNull
   deriving Repr, Inhabited, DecidableEq
 
 def Instr.size : Instr → Nat
@@ -335,6 +356,8 @@ def Instr.size : Instr → Nat
   | .incrField _ | .augField _ | .indexMulti _ | .concatMulti _ => 2
   | .incrVar _ _ _ | .arrIncr _ _ _ | .augVar _ _ _ | .arrAug _ _ _ | .print _ => 3
   | .jump _ | .jumpFalse _ | .jumpTrue _ | .jumpCmp _ _ => 2
+  | .nulls _ => 2
+  | .callUser _ _ arrs => 3 + 2 * arrs.length
   | _ => 1
 
 abbrev Code := List Instr
@@ -359,6 +382,7 @@ def cIdxOf (e : Expr) (code : Code) : Code :=
 def mkCond (cc : Code) (j : Int → Instr) (ct cf : Code) : Code :=
   cc ++ [j (csize ct + 2)] ++ ct ++ [.jump (csize cf)] ++ cf
 
+mutual
 /-- `compiler.expr`. Returns the code of the expression and, for `concatOp`, the view of the expression as a left-nested
 concatenation chain: (number of operands, code pushing the operands left to right). -/
 def cE : Expr → Code × Nat × Code
@@ -418,6 +442,16 @@ def cE : Expr → Code × Nat × Code
   | .incr _ dec true => let k := [.num .one, .arith (incrArith dec), .dupe]; (k, 1, k)
   | .incr _ dec false => let k := [.plus, .dupe, .num .one, .arith (incrArith dec)]; (k, 1, k)
   | .group e => let k := (cE e).1; (k, 1, k)
+  | .call f nsc args arrs =>
+    -- UserCallExpr: push the scalar arguments, pad the missing ones with `Nulls`, then `CallUser f #arrays (scope index)*`
+    let k := cEs args ++ (if args.length < nsc then [Instr.nulls (nsc - args.length)] else []) ++ [.callUser f nsc arrs]
+    (k, 1, k)
+
+/-- the code of an expression list (arguments of `print`, of a user call): left to right -/
+def cEs : List Expr → Code
+  | [] => []
+  | e :: es => (cE e).1 ++ cEs es
+end
 
 /-- `compiler.expr` -/
 def cExpr (e : Expr) : Code := (cE e).1
@@ -446,9 +480,7 @@ def cJumpF : Expr → Int → Instr
   | .cmp op _ _ => .jumpCmp op
   | _ => .jumpTrue
 
-def cExprs : List Expr → Code
-  | [] => []
-  | e :: es => cExpr e ++ cExprs es
+def cExprs (es : List Expr) : Code := cEs es
 
 /-- code of a statement-position expression (`compiler.stmt`, case `*ast.ExprStmt`) -/
 def cExprStmt : Expr → Code
@@ -483,6 +515,8 @@ def stmtSize : Stmt → Nat
   | .exit none => 1
   | .exit (some e) => csize (cExpr e) + 1
   | .block b => stmtSize b
+  | .ret none => 1
+  | .ret (some e) => csize (cExpr e) + 1
 
 /-- `compiler.stmt`. `brk` / `cont` = distance in opcode words from the END of this statement's code to the place the
 enclosing loop patches its `break` / `continue` jumps to (Go records marks and patches them later; the offsets are equal). -/
@@ -513,6 +547,8 @@ def cStmt (brk cont : Nat) : Stmt → Code
   | .exit none => [.exit]
   | .exit (some e) => cExpr e ++ [.exitStatus]
   | .block b => cStmt brk cont b
+  | .ret none => [.retNull]
+  | .ret (some e) => cExpr e ++ [.ret]
 
 /-! ## The VM -/
 section VM
@@ -524,6 +560,7 @@ inductive Eff
   | jump (off : Int) (stk : List S.V) (w : S.W)
   | stopNext (w : S.W)
   | stopExit (w : S.W)
+  | stopRet (v : S.V) (w : S.W)
 
 def condJump (b : Bool) (off : Int) (stk : List S.V) (w : S.W) : Eff S := if b then .jump off stk w else .next stk w
 
@@ -574,6 +611,11 @@ def execInstr : Instr → List S.V → S.W → Option (Eff S)
   | .exit, _, w => some (.stopExit w)
   | .exitStatus, v :: _, w => some (.stopExit (S.setExit v w))
   | .print n, s, w => if n ≤ s.length then (S.print (s.take n).reverse w).map fun w' => .next (s.drop n) w' else none
+  | .nulls k, s, w => some (.next (List.replicate k S.nullV ++ s) w)
+  | .callUser f nsc arrs, s, w =>
+    if nsc ≤ s.length then (S.call f (s.take nsc).reverse arrs w).map fun r => .next (r.1 :: s.drop nsc) r.2 else none
+  | .ret, v :: _, w => some (.stopRet v w)
+  | .retNull, _, w => some (.stopRet S.nullV w)
   | _, _, _ => none
 
 /-- the instruction that starts at opcode word `pc` (`none` when `pc` is past the end or inside an instruction) -/
@@ -597,7 +639,7 @@ def stepTo (C : Code) (st : St S) : Option (St S) :=
     | _ => none
 
 inductive VmOut
-  | normal (w : S.W) | next (w : S.W) | exit (w : S.W) | fail | timeout
+  | normal (w : S.W) | next (w : S.W) | exit (w : S.W) | ret (v : S.V) (w : S.W) | fail | timeout
 
 /-- run the VM for at most `n` instructions -/
 def run (C : Code) : Nat → St S → VmOut S
@@ -613,6 +655,7 @@ def run (C : Code) : Nat → St S → VmOut S
       | some (.jump off s w) => run C n ⟨((st.pc + i.size : Nat) + off).toNat, s, w⟩
       | some (.stopNext w) => .next w
       | some (.stopExit w) => .exit w
+      | some (.stopRet v w) => .ret v w
 
 end VM
 
